@@ -55,15 +55,15 @@ def optLblJ : Option Expand.Lbl → Json
   | none => .null
   | some l => .str (renderLbl l)
 
-def primToJson : Closed.Prim Expand.Lbl → Json
+def primToJsonWith {L : Type} (renderLbl : L → String) : Closed.Prim L → Json
   | .label n => Json.arr #["label", renderLbl n]
   | .goto l => Json.arr #["goto", renderLbl l]
   | .fork u ls => Json.arr #["fork", renderLbl u, Json.arr (ls.map fun l => Json.str (renderLbl l)).toArray]
   | .merge u => Json.arr #["merge", renderLbl u]
   | .waitHeads n => Json.arr #["wait", Json.num (JsonNumber.fromNat n)]
-  | .catchFail l => Json.arr #["catch", optLblJ l]
-  | .brk l => Json.arr #["break", optLblJ l]
-  | .cont l => Json.arr #["continue", optLblJ l]
+  | .catchFail l => Json.arr #["catch", match l with | none => Json.null | some x => Json.str (renderLbl x)]
+  | .brk l => Json.arr #["break", match l with | none => Json.null | some x => Json.str (renderLbl x)]
+  | .cont l => Json.arr #["continue", match l with | none => Json.null | some x => Json.str (renderLbl x)]
   | .beginScope n => Json.arr #["begin", renderLbl n]
   | .endScope n => Json.arr #["end", renderLbl n]
   | .abort => Json.arr #["abort"]
@@ -72,6 +72,8 @@ def primToJson : Closed.Prim Expand.Lbl → Json
   | .assign nld => Json.arr #["assign", Json.bool nld]
   | .other k => Json.arr #["other", Json.str k]
   | .composite k => Json.arr #["composite", Json.str k]
+
+def primToJson : Closed.Prim Expand.Lbl → Json := primToJsonWith renderLbl
 
 def optIntJ (j : Json) (k : String) : Except String (Option Int) :=
   match j.getObjVal? k with
@@ -181,6 +183,9 @@ def handle (op : String) (j : Json) : Except String Json := do
     let ss ← a.toList.mapM stmtOfJson
     let p := Expand.expandFlow ss
     pure (Json.mkObj [("prog", Json.arr (p.map primToJson).toArray), ("closed", Closed.closed p)])
+  | "witness" =>
+    -- the witness program of the open finding 2.x:scope-reopened (Theorems/C12.lean)
+    pure (Json.mkObj [("prog", Json.arr (Closed.whenElseInLoop.map (primToJsonWith id)).toArray)])
   | _ => throw s!"unknown op C12.{op}"
 
 end NemoVerif.Drive.C12
